@@ -405,6 +405,30 @@ def make_tiny_reuse_case(seed, fmt="glyf_colr_1"):
             "family": "tiny-reuse"}
 
 
+def make_group_share_case(seed, fmt="glyf"):
+    """glyph A is exactly ONE shape X; glyph B holds X again (same place or moved) inside a translucent group next to another shape — and, in a third
+    glyph, once more outside any group.  The outline of X is then used by several glyphs although each painted root of B is a single group."""
+    import random
+
+    r = random.Random(seed)
+    X = "M20,20 L70,25 L60,70 L25,60 Z"
+    dx = r.choice([0, 0, 12])
+    X2 = "M" + " L".join(f"{x + dx},{y}" for x, y in ((20, 20), (70, 25), (60, 70), (25, 60))) + " Z"
+    other = "M10,80 L90,80 L90,95 L10,95 Z"
+    a = f'<path d="{X}" fill="#CC0000"/>'
+    b = f'<g opacity="0.5"><path d="{X2}" fill="#0044CC"/><path d="{other}" fill="#00AA00"/></g>'
+    if r.random() < 0.5:
+        b = f'<g opacity="0.5"><path d="{other}" fill="#00AA00"/><path d="{X2}" fill="#0044CC"/></g>'
+    svgs = [f'<svg xmlns="http://www.w3.org/2000/svg" viewBox="0 0 100 100">{body}</svg>' for body in (a, b)]
+    if r.random() < 0.4:
+        svgs.append(f'<svg xmlns="http://www.w3.org/2000/svg" viewBox="0 0 100 100"><path d="{other}" fill="#222222"/><path d="{X}" fill="#FFCC00"/></svg>')
+    if r.random() < 0.5:
+        svgs[0], svgs[1] = svgs[1], svgs[0]
+    cfg = {"color_format": fmt, "upem": 1000, "ascender": 1000, "descender": 0, "width": 1000, "reuse_tolerance": 0.1, "keep_glyph_names": True}
+    return {"id": f"group-share:{fmt}:{seed}", "seed": seed, "fmt": fmt, "svgs": svgs, "config": cfg, "codepoints": [[0xE000 + i] for i in range(len(svgs))],
+            "family": "group-share"}
+
+
 def make_origin_anchored_case(seed, fmt="glyf_colr_0"):
     """Shapes that are copies of an earlier shape under a linear map ABOUT THE FONT-SPACE ORIGIN (scale 0.5..1.5, small
     rotation or shear, no translation): the reuse transform is a pure 2x2 matrix close to the identity."""
